@@ -1,0 +1,623 @@
+//go:build verif
+
+package federation
+
+// Thin exported wrappers around unexported federation code for the /verif harness
+// (properties C16, C17). Nothing here is compiled without the `verif` build tag.
+
+import (
+	"context"
+	"errors"
+	"io"
+	"net"
+	"sort"
+	"sync"
+	"time"
+
+	"github.com/hashicorp/serf/serf"
+	"go.uber.org/zap"
+	"google.golang.org/grpc"
+	"google.golang.org/grpc/metadata"
+
+	"github.com/DrmagicE/gmqtt"
+	"github.com/DrmagicE/gmqtt/persistence/subscription"
+	"github.com/DrmagicE/gmqtt/persistence/subscription/mem"
+	"github.com/DrmagicE/gmqtt/retained"
+	rtrie "github.com/DrmagicE/gmqtt/retained/trie"
+	"github.com/DrmagicE/gmqtt/server"
+)
+
+// ---------------------------------------------------------------- eventQueue
+
+// VerifQueue wraps the real eventQueue.
+type VerifQueue struct{ q *eventQueue }
+
+func VerifNewQueue() *VerifQueue { return &VerifQueue{q: newEventQueue()} }
+
+func (v *VerifQueue) Add(ev *Event) uint64 { v.q.add(ev); return ev.Id }
+
+// WouldBlock evaluates the wait condition of fetchEvents without calling it.
+func (v *VerifQueue) WouldBlock() bool {
+	v.q.cond.L.Lock()
+	defer v.q.cond.L.Unlock()
+	return (v.q.l.Len() == 0 || v.q.nextRead == nil) && !v.q.closed
+}
+
+// Fetch calls fetchEvents unless it would wait (single-threaded drivers only).
+func (v *VerifQueue) Fetch() (evs []*Event, blocked bool) {
+	if v.WouldBlock() {
+		return nil, true
+	}
+	return v.q.fetchEvents(), false
+}
+
+func (v *VerifQueue) Ack(id uint64)             { v.q.ack(id) }
+func (v *VerifQueue) SetReadPosition(id uint64) { v.q.setReadPosition(id) }
+func (v *VerifQueue) Clear()                    { v.q.clear() }
+func (v *VerifQueue) Close()                    { v.q.close() }
+func (v *VerifQueue) Open()                     { v.q.open() }
+
+// Dump returns the ids in the list, the cursor ("nil", "<id>" or "dangling:<id>" when nextRead points to an
+// element that is no longer in the list), nextID and the closed flag.
+func (v *VerifQueue) Dump() (ids []uint64, cursor string, cursorID uint64, nextID uint64, closed bool) {
+	v.q.cond.L.Lock()
+	defer v.q.cond.L.Unlock()
+	found := false
+	for e := v.q.l.Front(); e != nil; e = e.Next() {
+		ids = append(ids, e.Value.(*Event).Id)
+		if e == v.q.nextRead {
+			found = true
+		}
+	}
+	switch {
+	case v.q.nextRead == nil:
+		cursor = "nil"
+	case found:
+		cursor = "at"
+		cursorID = v.q.nextRead.Value.(*Event).Id
+	default:
+		cursor = "dangling"
+		cursorID = v.q.nextRead.Value.(*Event).Id
+	}
+	return ids, cursor, cursorID, v.q.nextID, v.q.closed
+}
+
+// Events returns the queued events (front first) without touching the cursor.
+func (v *VerifQueue) Events() []*Event {
+	v.q.cond.L.Lock()
+	defer v.q.cond.L.Unlock()
+	var r []*Event
+	for e := v.q.l.Front(); e != nil; e = e.Next() {
+		r = append(r, e.Value.(*Event))
+	}
+	return r
+}
+
+// ---------------------------------------------------------------- Federation without serf / gRPC
+
+// VerifPublisher records Publisher.Publish calls.
+type VerifPublisher struct {
+	mu   sync.Mutex
+	Msgs []*gmqtt.Message
+}
+
+func (p *VerifPublisher) Publish(m *gmqtt.Message) {
+	p.mu.Lock()
+	p.Msgs = append(p.Msgs, m)
+	p.mu.Unlock()
+}
+
+func (p *VerifPublisher) Take() []*gmqtt.Message {
+	p.mu.Lock()
+	defer p.mu.Unlock()
+	r := p.Msgs
+	p.Msgs = nil
+	return r
+}
+
+func (p *VerifPublisher) Len() int {
+	p.mu.Lock()
+	defer p.mu.Unlock()
+	return len(p.Msgs)
+}
+
+// VerifFed is a Federation value built like New() does, minus serf; Load() is replaced by direct wiring
+// of an in-memory subscription store (local), retained store and a recording publisher.
+type VerifFed struct {
+	F        *Federation
+	Pub      *VerifPublisher
+	Local    *mem.TrieDB
+	Retained retained.Store
+}
+
+type verifClient struct {
+	server.Client
+	opts *server.ClientOptions
+}
+
+func (c *verifClient) ClientOptions() *server.ClientOptions { return c.opts }
+
+// VerifNewFed builds the value. loadLocal: subscriptions to put into the broker's subscription store BEFORE
+// localSubStore.init runs (client, share, filter triples), as after a broker restart.
+func VerifNewFed(nodeName string, preload [][3]string) *VerifFed {
+	log = zap.NewNop()
+	servePeerEventStream = func(p *peer) {}
+	pub := &VerifPublisher{}
+	local := mem.NewStore()
+	for _, s := range preload {
+		_, _ = local.Subscribe(s[0], &gmqtt.Subscription{ShareName: s[1], TopicFilter: s[2]})
+	}
+	f := &Federation{
+		config:        &Config{NodeName: nodeName},
+		nodeName:      nodeName,
+		localSubStore: &localSubStore{},
+		fedSubStore: &fedSubStore{
+			TrieDB:     mem.NewStore(),
+			sharedSent: map[string]uint64{},
+		},
+		serfEventCh: make(chan serf.Event, 16),
+		sessionMgr: &sessionMgr{
+			sessions: map[string]*session{},
+		},
+		peers: make(map[string]*peer),
+		exit:  make(chan struct{}),
+		wg:    &sync.WaitGroup{},
+	}
+	f.localSubStore.init(local)
+	f.retainedStore = rtrie.NewStore()
+	f.publisher = pub
+	return &VerifFed{F: f, Pub: pub, Local: local, Retained: f.retainedStore}
+}
+
+// SetPublisher replaces the recording publisher (e.g. by the Publisher of a real server value).
+func (v *VerifFed) SetPublisher(p server.Publisher) { v.F.publisher = p }
+
+func (v *VerifFed) NodeJoin(name string) {
+	v.F.nodeJoin(serf.MemberEvent{Type: serf.EventMemberJoin, Members: []serf.Member{{Name: name}}})
+}
+
+func (v *VerifFed) NodeFail(name string) {
+	v.F.nodeFail(serf.MemberEvent{Type: serf.EventMemberFailed, Members: []serf.Member{{Name: name}}})
+}
+
+func (v *VerifFed) Peers() []string {
+	v.F.memberMu.Lock()
+	defer v.F.memberMu.Unlock()
+	var r []string
+	for k := range v.F.peers {
+		r = append(r, k)
+	}
+	sort.Strings(r)
+	return r
+}
+
+// PeerQueue returns the outgoing queue of a peer (nil if absent or not an *eventQueue).
+func (v *VerifFed) PeerQueue(name string) *VerifQueue {
+	v.F.memberMu.Lock()
+	defer v.F.memberMu.Unlock()
+	p := v.F.peers[name]
+	if p == nil {
+		return nil
+	}
+	switch q := p.queue.(type) {
+	case *eventQueue:
+		return &VerifQueue{q: q}
+	case *verifRecQueue:
+		return &VerifQueue{q: q.eventQueue}
+	}
+	return nil
+}
+
+// verifRecQueue is the real eventQueue plus a ghost log of everything added since the last clear().
+type verifRecQueue struct {
+	*eventQueue
+	mu     sync.Mutex
+	hist   []*Event
+	clears int
+}
+
+func (r *verifRecQueue) add(e *Event) {
+	r.eventQueue.add(e)
+	r.mu.Lock()
+	r.hist = append(r.hist, e)
+	r.mu.Unlock()
+}
+
+func (r *verifRecQueue) clear() {
+	r.eventQueue.clear()
+	r.mu.Lock()
+	r.hist = nil
+	r.clears++
+	r.mu.Unlock()
+}
+
+// RecordPeerQueue wraps the peer's real queue so that PeerHistory can report what was emitted.
+func (v *VerifFed) RecordPeerQueue(name string) {
+	v.F.memberMu.Lock()
+	defer v.F.memberMu.Unlock()
+	if p := v.F.peers[name]; p != nil {
+		if q, ok := p.queue.(*eventQueue); ok {
+			p.queue = &verifRecQueue{eventQueue: q}
+		}
+	}
+}
+
+// PeerHistory returns the events added to the peer's queue since its last clear() and the number of clear() calls.
+func (v *VerifFed) PeerHistory(name string) (hist []*Event, clears int) {
+	v.F.memberMu.Lock()
+	defer v.F.memberMu.Unlock()
+	if p := v.F.peers[name]; p != nil {
+		if q, ok := p.queue.(*verifRecQueue); ok {
+			q.mu.Lock()
+			defer q.mu.Unlock()
+			return append([]*Event(nil), q.hist...), q.clears
+		}
+	}
+	return nil, 0
+}
+
+func (v *VerifFed) PeerSessionID(name string) string {
+	v.F.memberMu.Lock()
+	defer v.F.memberMu.Unlock()
+	if p := v.F.peers[name]; p != nil {
+		return p.sessionID
+	}
+	return ""
+}
+
+func (v *VerifFed) SetPeerSessionID(name, sid string) {
+	v.F.memberMu.Lock()
+	defer v.F.memberMu.Unlock()
+	if p := v.F.peers[name]; p != nil {
+		p.sessionID = sid
+	}
+}
+
+func verifIncoming(node string) context.Context {
+	return metadata.NewIncomingContext(context.Background(), metadata.Pairs("node_name", node))
+}
+
+// Hello runs the real server-side handshake handler.
+func (v *VerifFed) Hello(node, sid string) (clean bool, next uint64, err error) {
+	resp, err := v.F.Hello(verifIncoming(node), &ClientHello{SessionId: sid})
+	if err != nil {
+		return false, 0, err
+	}
+	return resp.CleanStart, resp.NextEventId, nil
+}
+
+// SessionInfo exposes the receiver-side session of a node.
+func (v *VerifFed) SessionInfo(node string) (id string, next uint64, seen []uint64, ok bool) {
+	v.F.sessionMgr.RLock()
+	defer v.F.sessionMgr.RUnlock()
+	s := v.F.sessionMgr.sessions[node]
+	if s == nil {
+		return "", 0, nil, false
+	}
+	for e := s.seenEvents.l.Front(); e != nil; e = e.Next() {
+		seen = append(seen, e.Value.(uint64))
+	}
+	return s.id, s.nextEventID, seen, true
+}
+
+func (v *VerifFed) Sessions() []string {
+	v.F.sessionMgr.RLock()
+	defer v.F.sessionMgr.RUnlock()
+	var r []string
+	for k := range v.F.sessionMgr.sessions {
+		r = append(r, k)
+	}
+	sort.Strings(r)
+	return r
+}
+
+// FedSubs dumps the federation subscription tree as sorted (node, shareName, topicFilter) triples.
+func (v *VerifFed) FedSubs() [][3]string { return verifDumpSubs(v.F.fedSubStore.TrieDB) }
+
+// LocalStoreSubs dumps the broker-side (local) subscription store.
+func (v *VerifFed) LocalStoreSubs() [][3]string { return verifDumpSubs(v.Local) }
+
+func verifDumpSubs(db *mem.TrieDB) [][3]string {
+	var r [][3]string
+	db.Iterate(func(clientID string, sub *gmqtt.Subscription) bool {
+		r = append(r, [3]string{clientID, sub.ShareName, sub.TopicFilter})
+		return true
+	}, subscription.IterationOptions{Type: subscription.TypeAll})
+	sort.Slice(r, func(i, j int) bool {
+		for k := 0; k < 3; k++ {
+			if r[i][k] != r[j][k] {
+				return r[i][k] < r[j][k]
+			}
+		}
+		return false
+	})
+	return r
+}
+
+// FedSubscribe / FedUnsubscribe / FedUnsubscribeAll act directly on the federation tree (routing fixtures).
+func (v *VerifFed) FedSubscribe(node, share, filter string) {
+	_, _ = v.F.fedSubStore.Subscribe(node, &gmqtt.Subscription{ShareName: share, TopicFilter: filter})
+}
+func (v *VerifFed) FedUnsubscribe(node, topicName string) {
+	_ = v.F.fedSubStore.Unsubscribe(node, topicName)
+}
+func (v *VerifFed) FedUnsubscribeAll(node string) { _ = v.F.fedSubStore.UnsubscribeAll(node) }
+
+// RetainedDump returns sorted (topic, payload) of the retained store.
+func (v *VerifFed) RetainedDump() [][2]string {
+	var r [][2]string
+	v.Retained.Iterate(func(m *gmqtt.Message) bool {
+		r = append(r, [2]string{m.Topic, string(m.Payload)})
+		return true
+	})
+	sort.Slice(r, func(i, j int) bool { return r[i][0] < r[j][0] })
+	return r
+}
+
+// ---- hooks (localSubStore + event emission)
+
+func (v *VerifFed) HookSubscribed(clientID, share, filter string) {
+	h := v.F.OnSubscribedWrapper(func(context.Context, server.Client, *gmqtt.Subscription) {})
+	h(context.Background(), &verifClient{opts: &server.ClientOptions{ClientID: clientID}},
+		&gmqtt.Subscription{ShareName: share, TopicFilter: filter})
+}
+
+func (v *VerifFed) HookUnsubscribed(clientID, topicName string) {
+	h := v.F.OnUnsubscribedWrapper(func(context.Context, server.Client, string) {})
+	h(context.Background(), &verifClient{opts: &server.ClientOptions{ClientID: clientID}}, topicName)
+}
+
+func (v *VerifFed) HookSessionTerminated(clientID string) {
+	h := v.F.OnSessionTerminatedWrapper(func(context.Context, string, server.SessionTerminatedReason) {})
+	h(context.Background(), clientID, server.NormalTermination)
+}
+
+// HookMsgArrived runs OnMsgArrivedWrapper; returns what the wrapper decided for the local delivery.
+func (v *VerifFed) HookMsgArrived(clientID string, msg *gmqtt.Message) (dropped bool, opts subscription.IterationOptions, err error) {
+	h := v.F.OnMsgArrivedWrapper(func(context.Context, server.Client, *server.MsgArrivedRequest) error { return nil })
+	req := &server.MsgArrivedRequest{Message: msg}
+	err = h(context.Background(), &verifClient{opts: &server.ClientOptions{ClientID: clientID}}, req)
+	return req.Message == nil, req.IterationOptions, err
+}
+
+// SendMessage calls the routing function directly.
+func (v *VerifFed) SendMessage(msg *gmqtt.Message) (drop bool, options *subscription.IterationOptions) {
+	return v.F.sendMessage(msg)
+}
+
+func (v *VerifFed) SetSharedSent(topic string, n uint64) {
+	v.F.fedSubStore.sharedMu.Lock()
+	v.F.fedSubStore.sharedSent[topic] = n
+	v.F.fedSubStore.sharedMu.Unlock()
+}
+
+func (v *VerifFed) SharedSent() map[string]uint64 {
+	v.F.fedSubStore.sharedMu.Lock()
+	defer v.F.fedSubStore.sharedMu.Unlock()
+	r := map[string]uint64{}
+	for k, n := range v.F.fedSubStore.sharedSent {
+		r[k] = n
+	}
+	return r
+}
+
+// LocalSubsDump returns localSubStore.topics and .index, sorted.
+func (v *VerifFed) LocalSubsDump() (topics [][2]string, counts []uint64, index [][2]string) {
+	l := v.F.localSubStore
+	l.Lock()
+	defer l.Unlock()
+	var keys []string
+	for k := range l.topics {
+		keys = append(keys, k)
+	}
+	sort.Strings(keys)
+	for _, k := range keys {
+		topics = append(topics, [2]string{k, ""})
+		counts = append(counts, l.topics[k])
+	}
+	for c, m := range l.index {
+		if len(m) == 0 {
+			index = append(index, [2]string{c, "<empty>"})
+		}
+		for t := range m {
+			index = append(index, [2]string{c, t})
+		}
+	}
+	sort.Slice(index, func(i, j int) bool {
+		if index[i][0] != index[j][0] {
+			return index[i][0] < index[j][0]
+		}
+		return index[i][1] < index[j][1]
+	})
+	return
+}
+
+// ---------------------------------------------------------------- server side of one event stream (real EventStream loop)
+
+var ErrVerifBroken = errors.New("verif: stream broken")
+
+// VerifServerStream is a Federation_EventStreamServer whose Recv/Send are driven step by step.
+type VerifServerStream struct {
+	grpc.ServerStream
+	ctx      context.Context
+	cancel   context.CancelFunc
+	in       chan *Event
+	idle     chan struct{}
+	mu       sync.Mutex
+	acks     []*Ack
+	failSend bool
+	// SendGate, when non-nil, is received from before every Send returns (lets a test hold the loop inside Send)
+	SendGate chan struct{}
+	Done     chan error
+}
+
+func (s *VerifServerStream) Context() context.Context { return s.ctx }
+
+func (s *VerifServerStream) Recv() (*Event, error) {
+	select {
+	case s.idle <- struct{}{}:
+	case <-s.ctx.Done():
+		return nil, ErrVerifBroken
+	}
+	select {
+	case ev := <-s.in:
+		if ev == nil {
+			return nil, io.EOF
+		}
+		return ev, nil
+	case <-s.ctx.Done():
+		return nil, ErrVerifBroken
+	}
+}
+
+func (s *VerifServerStream) Send(a *Ack) error {
+	if s.SendGate != nil {
+		<-s.SendGate
+	}
+	s.mu.Lock()
+	defer s.mu.Unlock()
+	if s.failSend {
+		return ErrVerifBroken
+	}
+	s.acks = append(s.acks, a)
+	return nil
+}
+
+// OpenStream starts the real EventStream handler for `node` on a step-driven stream and waits until it
+// blocks in Recv (or returns).
+func (v *VerifFed) OpenStream(node string) (*VerifServerStream, error) {
+	ctx, cancel := context.WithCancel(verifIncoming(node))
+	s := &VerifServerStream{ctx: ctx, cancel: cancel, in: make(chan *Event), idle: make(chan struct{}),
+		Done: make(chan error, 1)}
+	go func() {
+		err := v.F.EventStream(s)
+		cancel() // gRPC cancels the stream context once the handler returns
+		s.Done <- err
+	}()
+	select {
+	case <-s.idle:
+		return s, nil
+	case err := <-s.Done:
+		if err == nil {
+			err = io.EOF
+		}
+		return nil, err
+	case <-time.After(5 * time.Second):
+		return nil, errors.New("verif: hang")
+	}
+}
+
+// Deliver hands one event to the loop and waits until the loop is back in Recv (ack sent, nextEventID
+// updated) or the handler has returned. ackFail makes the Send of this ack fail.
+func (s *VerifServerStream) Deliver(ev *Event, ackFail bool) (acks []*Ack, ended bool, hang bool) {
+	s.mu.Lock()
+	s.failSend = ackFail
+	s.acks = nil
+	s.mu.Unlock()
+	select {
+	case s.in <- ev:
+	case err := <-s.Done:
+		s.Done <- err
+		return nil, true, false
+	case <-time.After(5 * time.Second):
+		return nil, false, true
+	}
+	select {
+	case <-s.idle:
+	case err := <-s.Done:
+		s.Done <- err
+		ended = true
+	case <-time.After(5 * time.Second):
+		hang = true
+	}
+	s.mu.Lock()
+	acks = s.acks
+	s.mu.Unlock()
+	return
+}
+
+// Break makes Recv fail (connection lost) and waits for the handler to return.
+func (s *VerifServerStream) Break() (hang bool) {
+	s.cancel()
+	select {
+	case err := <-s.Done:
+		s.Done <- err
+		return false
+	case <-time.After(5 * time.Second):
+		return true
+	}
+}
+
+// Ended reports whether the handler has returned.
+func (s *VerifServerStream) Ended() bool {
+	select {
+	case err := <-s.Done:
+		s.Done <- err
+		return true
+	default:
+		return false
+	}
+}
+
+// ---------------------------------------------------------------- client side (peer.initStream / stream.serve)
+
+// VerifDummyConn is a *grpc.ClientConn that never connects (initStream / setError only Close it).
+func VerifDummyConn() *grpc.ClientConn {
+	conn, err := grpc.Dial("passthrough:///verif-unused", grpc.WithInsecure(),
+		grpc.WithContextDialer(func(context.Context, string) (net.Conn, error) { return nil, ErrVerifBroken }))
+	if err != nil {
+		panic(err)
+	}
+	return conn
+}
+
+// InitStreamAndServe runs one iteration of peer.serveStream with the given client instead of grpc.Dial:
+// initStream (Hello, resync, setReadPosition, EventStream) followed by stream.serve(). Returns initStream's
+// error (serve not run) or serve's result.
+func (v *VerifFed) InitStreamAndServe(peerName string, client FederationClient) (initErr error, serveErr error) {
+	v.F.memberMu.Lock()
+	p := v.F.peers[peerName]
+	v.F.memberMu.Unlock()
+	if p == nil {
+		return errors.New("verif: no such peer"), nil
+	}
+	conn := VerifDummyConn()
+	s, err := p.initStream(client, conn)
+	if err != nil {
+		_ = conn.Close()
+		return err, nil
+	}
+	return nil, s.serve()
+}
+
+// InitStream runs only peer.initStream (handshake + resynchronisation + positioning) and then marks the
+// peer as not streaming again, so that it can be repeated; the queue is left open as initStream leaves it.
+func (v *VerifFed) InitStream(peerName string, client FederationClient) error {
+	v.F.memberMu.Lock()
+	p := v.F.peers[peerName]
+	v.F.memberMu.Unlock()
+	if p == nil {
+		return errors.New("verif: no such peer")
+	}
+	conn := VerifDummyConn()
+	defer conn.Close()
+	_, err := p.initStream(client, conn)
+	p.stateMu.Lock()
+	p.state = 0
+	p.stateMu.Unlock()
+	return err
+}
+
+// StopPeer calls peer.stop (closes exit; closes the connection of a streaming peer).
+func (v *VerifFed) StopPeer(peerName string) {
+	v.F.memberMu.Lock()
+	p := v.F.peers[peerName]
+	v.F.memberMu.Unlock()
+	if p != nil {
+		p.stop()
+	}
+}
+
+// VerifEventToMessage / VerifMessageToEvent expose the conversions.
+func VerifEventToMessage(m *Message) *gmqtt.Message { return eventToMessage(m) }
+func VerifMessageToEvent(m *gmqtt.Message) *Message { return messageToEvent(m) }
